@@ -650,4 +650,50 @@ static void ref_chunked_decode(const ref_u8 *p, size_t n, int lenient, struct re
 		}
 	}
 }
+/* ---- sender side: components that may be embedded verbatim ---------------------------
+ * format:  start-line CRLF *( field-name ":" SP field-value CRLF ) CRLF body
+ * A component is "safe" when a recipient of the formatted message derives
+ * exactly this component again (harness C26_lemma.c decides that for the
+ * reference recipients above, so these predicates are checked, not trusted).
+ *   field-name   token
+ *   field-value  no CR / LF, except obs-fold: ONE line break (CRLF or LF) directly
+ *                followed by SP / HTAB (RFC 9112 5.2; deprecated but not an injection)
+ *   reason       *( HTAB / SP / VCHAR / obs-text )
+ *   target       1*( octet that is no control character ); SP is tolerated because
+ *                libevent's own server side splits at the first and last SP */
+static int ref_safe_field_name(const ref_u8 *p, size_t n) { return ref_is_token(p, n); }
+static int ref_safe_field_value(const ref_u8 *p, size_t n)
+{
+	size_t i = 0, k;
+	for (k = 0; k < REF_MAXLINE && i < n; k++) {
+		if (p[i] == '\r') {
+			if (i + 1 >= n || p[i + 1] != '\n') return 0;
+			i += 2;
+			if (i >= n || !ref_is_ows(p[i])) return 0;
+		} else if (p[i] == '\n') {
+			i += 1;
+			if (i >= n || !ref_is_ows(p[i])) return 0;
+		} else if (p[i] == '\0') {
+			return 0;
+		} else {
+			i++;
+		}
+	}
+	return 1;
+}
+static int ref_safe_reason(const ref_u8 *p, size_t n)
+{
+	size_t i;
+	for (i = 0; i < REF_MAXLINE && i < n; i++)
+		if ((p[i] < 0x20 && p[i] != '\t') || p[i] == 0x7f) return 0;
+	return 1;
+}
+static int ref_safe_target(const ref_u8 *p, size_t n)
+{
+	size_t i;
+	if (n == 0) return 0;
+	for (i = 0; i < REF_MAXLINE && i < n; i++)
+		if (p[i] < 0x20 || p[i] == 0x7f) return 0;
+	return 1;
+}
 #endif
